@@ -5,6 +5,7 @@ import (
 	"fmt"
 	"io"
 
+	"github.com/Eyevinn/mp4ff/bits"
 	"github.com/Eyevinn/mp4ff/mp4"
 
 	"verifharness/runner"
@@ -160,6 +161,22 @@ func runGiant(c *runner.Ctx, g giantSpec) {
 		c.Violation(key("lazy-encode"), fmt.Sprintf("Encode of the lazily decoded mdat writes %x (err %v), the header in the file is %x", w.Bytes(), eerr, hdr), det)
 	}
 	c.Count("call:lazy/Encode", 1)
+	// the whole file: every box but the mdat payload, through both writers
+	// (the slice writer is small on purpose: a 4 GiB File.Size() cannot be allocated)
+	wantFile := append(append(append([]byte{}, ftyp...), hdr...), trailer...)
+	var fw bytes.Buffer
+	if pi := c.Guard(func() { eerr = f.Encode(&fw) }); pi != nil || eerr != nil || !bytes.Equal(fw.Bytes(), wantFile) {
+		c.Violation(key("lazy-file-encode"), fmt.Sprintf("File.Encode of the lazily decoded file writes %d bytes (err %v), the file without the mdat payload has %d", fw.Len(), eerr, len(wantFile)), det)
+	}
+	var swOut []byte
+	if pi := c.Guard(func() {
+		sw := bits.NewFixedSliceWriter(1024)
+		eerr = f.EncodeSW(sw)
+		swOut = sw.Bytes()
+	}); pi != nil || eerr != nil || !bytes.Equal(swOut, wantFile) {
+		c.Violation(key("lazy-file-encodesw"), fmt.Sprintf("File.EncodeSW of the lazily decoded file writes %d bytes (err %v, panic %v), the file without the mdat payload has %d", len(swOut), eerr, pi != nil, len(wantFile)), det)
+	}
+	c.Count("giant_file_encodes", 2)
 	type rd struct {
 		start int64
 		want  []byte
